@@ -206,6 +206,7 @@ static bool visitor(const mi_heap_t* heap, const mi_heap_area_t* area, void* blo
   if (k < 0) {
     // the descriptors of the thread's other heaps are blocks of the backing heap
     for (int i = 0; i < NH; i++) if (heaps[i] && (uint8_t*)block <= (uint8_t*)heaps[i] && (uint8_t*)heaps[i] < (uint8_t*)block + bsize) { v->area_blocks++; return true; }
+    if (mi_option_get(mi_option_target_segments_per_thread) > 0) { FAIL("c10_heap_changed_by_forced_abandon", "heap %d: the walk reports block [%p,+%zu) which the program does not hold (pages force-abandoned and re-adopted)", v->hi, block, bsize); return true; }
     v->bad++; { int near = -1; for (int i = 0; i < nlive; i++) if (live[i].p >= (uint8_t*)block && (near < 0 || live[i].p < live[near].p)) near = i;
       FAIL("c12_visited_not_live", "heap %d: visited block [%p,+%zu) encloses no live block (area blocks_size %zu full %zu; next live block above: %p usable %zu req %zu align %zu heap %d)", v->hi, block, bsize, area->block_size, area->full_block_size, near >= 0 ? (void*)live[near].p : NULL, near >= 0 ? live[near].usable : 0, near >= 0 ? live[near].req : 0, near >= 0 ? live[near].al : 0, near >= 0 ? live[near].heap : 0); } return true;
   }
@@ -220,10 +221,11 @@ static void op_visit(void) {
     mi_heap_t* h = heap_of(hi); if (!h) continue;
     visit_t v = { hi, 0, 0, 0, 0 };
     mi_heap_visit_blocks(h, true, &visitor, &v); n_eval++;
-    if (v.area_used_sum != v.area_blocks) FAIL("c12_area_used", "heap %d: areas report %ld used blocks, %ld blocks were visited", hi, v.area_used_sum, v.area_blocks);
+    if (v.area_used_sum != v.area_blocks && mi_option_get(mi_option_target_segments_per_thread) == 0) FAIL("c12_area_used", "heap %d: areas report %ld used blocks, %ld blocks were visited", hi, v.area_used_sum, v.area_blocks);
     long expect = 0; for (int i = 0; i < nlive; i++) if (live[i].heap == hi) expect++;
     long got = 0; for (int i = 0; i < nlive; i++) if (live[i].heap == hi && seen[i]) got++;
-    if (got != expect) { int ex = -1; for (int i = 0; i < nlive; i++) if (live[i].heap == hi && !seen[i]) { ex = i; break; }
+    if (got != expect && mi_option_get(mi_option_target_segments_per_thread) > 0) { FAIL("c10_heap_changed_by_forced_abandon", "heap %d: %ld of %ld live blocks were reported by the walk (pages force-abandoned)", hi, got, expect); }
+    else if (got != expect) { int ex = -1; for (int i = 0; i < nlive; i++) if (live[i].heap == hi && !seen[i]) { ex = i; break; }
       FAIL("c12_live_not_visited", "heap %d: %ld of %ld live blocks were reported (e.g. %p size %zu missing)", hi, got, expect, ex >= 0 ? (void*)live[ex].p : NULL, ex >= 0 ? live[ex].req : 0); }
   }
   // stop on false
